@@ -226,14 +226,17 @@ where
             let mut ch = Chooser::from_choices(&v.choices);
             ch.verbose = false;
             let r = std::panic::catch_unwind(std::panic::AssertUnwindSafe(|| f(&mut ch)));
-            let same = match r {
-                Ok(e) => e.violation.map(|w| w.clause == v.clause && w.detail == v.detail).unwrap_or(false),
-                Err(_) => false,
+            let (same, got) = match r {
+                Ok(e) => match e.violation {
+                    Some(w) => (w.clause == v.clause && w.detail == v.detail, format!("{}: {}", w.clause, w.detail)),
+                    None => (false, "no violation".to_string()),
+                },
+                Err(_) => (false, "a panic".to_string()),
             };
             if !same {
                 crate::machinery_error(&format!(
-                    "{}: violation {} does not reproduce identically on re-execution (uncaptured nondeterminism)",
-                    cfg.name, v.sig
+                    "{}: violation {} does not reproduce identically on re-execution (uncaptured nondeterminism)\n  first:  {}: {}\n  second: {}",
+                    cfg.name, v.sig, v.clause, v.detail, got
                 ));
             }
         }
